@@ -19,6 +19,52 @@ def load_known():
         return json.load(f)
 
 
+def struct_sig(obj):
+    def walk(o):
+        if isinstance(o, bool) or o is None or isinstance(o, str):
+            return o
+        if isinstance(o, (int, float)):
+            return 0
+        if isinstance(o, list):
+            return [walk(x) for x in o]
+        return {k: walk(v) for k, v in sorted(o.items()) if k != "tid"}
+    return json.dumps(walk(obj), sort_keys=True)
+
+
+def geo_sig(e, fine=True):
+    """coarse class of a domain expression: operator / primitive kinds, which parts depend on parameters, orientation of
+    polygons, kind of rotation -- no coordinates"""
+    def dep(forms):
+        out = set()
+        for a in (forms if isinstance(forms, list) else [forms]):
+            kk = a.get("k") if isinstance(a, dict) and fine else None
+            if isinstance(kk, dict):
+                out.update(n for n, v in kk.items() if v)
+        return "".join(sorted(out))
+    k = e["k"]
+    if k in ("par", "tri"):
+        a, b = e["a"], e["b"]
+        o = e["o"]
+        cr = (a[0]["c"] - o[0]["c"]) * (b[1]["c"] - o[1]["c"]) - (a[1]["c"] - o[1]["c"]) * (b[0]["c"] - o[0]["c"])
+        slant = (a[0]["c"] != o[0]["c"] and a[1]["c"] != o[1]["c"]) or (b[0]["c"] != o[0]["c"] and b[1]["c"] != o[1]["c"])
+        if not fine:
+            return k
+        return "%s%s%s~%s" % (k, "-" if cr < 0 else "+", "/" if slant else "", dep(e["o"] + e["a"] + e["b"]))
+    if k in ("circle", "sphere"):
+        return "%s~%s" % (k, dep(e["c"] + [e["r"]]))
+    if k == "interval":
+        return "interval~%s" % dep([e["lo"], e["hi"]])
+    if k == "point":
+        return "point~%s" % dep(e["p"])
+    if k in ("union", "cut", "and", "prod"):
+        return "%s(%s,%s)%s" % (k, geo_sig(e["l"], fine), geo_sig(e["r"], fine), "!" if e.get("disjoint") or e.get("contained") else "")
+    if k == "trans":
+        return "trans~%s(%s)" % (dep(e["t"]), geo_sig(e["d"], fine))
+    if k == "rot":
+        return "rot%s~%s(%s)" % ("" if e["m"] in ("r0", "r90", "r180", "r270") or not fine else "*", dep(e["p"]), geo_sig(e["d"], fine))
+    return "%s(%s)" % (k, geo_sig(e["d"], fine))
+
+
 class Ctx:
     def __init__(self, pid, tier, seed, replay=None):
         self.pid, self.tier, self.seed, self.replay = pid, tier, seed, replay
@@ -196,6 +242,23 @@ class Ctx:
             r["trace"] = idx.get(r["tid"])
         self.rejections.extend(rej)
         return rej
+
+    def stratified(self, items, frac, key=None, min_per=1):
+        """Quick-tier subsample: items are grouped by structure (the JSON term with every number replaced by 0, so
+        shapes / kinds / parameter names distinguish classes) and a seeded sample of every class is kept, at least
+        `min_per` each.  A plain stride once aliased with TLC's enumeration order and dropped whole classes."""
+        import math
+        key = key or struct_sig
+        groups = {}
+        for i, it in enumerate(items):
+            groups.setdefault(key(it), []).append(i)
+        keep = set()
+        for g in sorted(groups):
+            idx = groups[g]
+            n = min(len(idx), max(min_per, math.ceil(frac * len(idx))))
+            keep.update(self.rng.sample(idx, n))
+        self.extra.setdefault("quick_subsample", []).append({"classes": len(groups), "kept": len(keep), "of": len(items)})
+        return [it for i, it in enumerate(items) if i in keep]
 
     def sample(self, obj, limit=3):
         if len(self.samples) < limit:
